@@ -208,18 +208,23 @@ def check_pid_outputs(c, arr, packed, N, box, ppd, fdt, what, key):
     return conds
 
 
-def body_pids(N, flags, fdt):
+def body_pids(N, flags, fdt, floatppd=False):
     c = ctx()
-    c.extra['case'] = dict(kind='pids', N=N, flags=flags, float_dtype=fdt)
+    c.extra['case'] = dict(kind='pids', N=N, flags=flags, float_dtype=fdt, floatppd=floatppd)
     c.extra['keyprefix'] = 'pids:'
     c.extra['sample'] = c.extra['case']
     packed = common.sym_array('packed', (N,), 'u8', bv=True)
     box = Sym(c.input('box', z3.RealSort()))
     ppd = Sym(c.input('ppd', z3.IntSort()))
     c.assume(z3.And(box.e > 0, ppd.e >= 1))
+    ppd_arg = ppd
+    if floatppd:
+        # headers store ppd as the float cube root of the particle number: an integer up to a few ulp (here 1e-9) either way
+        ppd_arg = Sym(c.input('ppdf', z3.RealSort()))
+        c.assume(z3.And(ppd.e <= 100000, ppd_arg.e - z3.ToReal(ppd.e) <= z3.RealVal('1/1000000000'), z3.ToReal(ppd.e) - ppd_arg.e <= z3.RealVal('1/1000000000')))
     kw = {f: True for f in flags}
     need = 'lagr_pos' in flags
-    arr = R.unpack_pids(packed, box=box if need else None, ppd=ppd if need else None, float_dtype=arrays.T(fdt), **kw)
+    arr = R.unpack_pids(packed, box=box if need else None, ppd=ppd_arg if need else None, float_dtype=arrays.T(fdt), **kw)
     if set(arr) != set(flags):
         c.report('violation', f'unpack_pids returned {sorted(arr)} for request {sorted(flags)}', key='pids:fields')
         return
@@ -276,6 +281,7 @@ def items(tier, seed):
         if tier == 'thorough':
             ub += [list(p) for p in itertools.combinations(bp.PID_FIELDS, 2)]
         out.append(dict(name=f'bits/{fdt}', kind='bits', Ns=Ns, fdt=fdt, ub=ub))
+        out.append(dict(name=f'pids/{fdt}/float-ppd', kind='pids', Ns=[1], fdt=fdt, combos=[['lagr_pos'], ['lagr_pos', 'pid', 'lagr_idx']], floatppd=True))
     out.append(dict(name='rvint/quantum', kind='quantum'))
     out.append(dict(name='pids/errors', kind='errors'))
     return out
@@ -301,7 +307,7 @@ def run(item):
     elif item['kind'] == 'pids':
         for N in item['Ns']:
             for flags in item['combos']:
-                add(common.run_paths(lambda: body_pids(N, flags, item['fdt']), cov_funcs=FUNCS)[0])
+                add(common.run_paths(lambda: body_pids(N, flags, item['fdt'], item.get('floatppd', False)), cov_funcs=FUNCS)[0])
     elif item['kind'] == 'bits':
         for N in item['Ns']:
             for ub in item['ub']:
@@ -391,12 +397,16 @@ if case.get('kind') == 'rvint':
 else:
     N = case['N']
     ppd = int(m.get('ppd', 1))
+    ppd_arg = float(F(m['ppdf'])) if (case.get('floatppd') and 'ppdf' in m) else ppd
     w = np.array([m.get(f'packed[{{i}}]', 0) for i in range(N)], dtype=np.uint64)
     fd = np.dtype(case['float_dtype']).type
     if case.get('kind') == 'pids':
         need = 'lagr_pos' in case['flags']
-        arr = bp.unpack_pids(w, box=box if need else None, ppd=ppd if need else None, float_dtype=fd, **{{f: True for f in case['flags']}})
-        if set(arr) != set(case['flags']): bad.append(f'fields {{sorted(arr)}}')
+        try:
+            arr = bp.unpack_pids(w, box=box if need else None, ppd=ppd_arg if need else None, float_dtype=fd, **{{f: True for f in case['flags']}})
+        except Exception as ex:
+            bad.append(f'unpack_pids(ppd={{ppd_arg!r}}) raised {{type(ex).__name__}}: {{ex}}'); arr = {{}}
+        if not bad and set(arr) != set(case['flags']): bad.append(f'fields {{sorted(arr)}}')
     else:
         arr = bp.empty_bitpacked_arrays(N, case['unpack_bits'], float_dtype=fd)
         bp._unpack_pids(w, box, ppd, float_dtype=fd, **{{k: v for k, v in arr.items() if k != 'packedpid'}})
